@@ -8,7 +8,8 @@
    len(msg) mod 256 (C02_up_eq_spec_any_length). *)
 From Coq Require Import List NArith ZArith Bool.
 From LW Require Import Base.Outcome Base.Bytes Crypto.AES Crypto.CMAC Mac.Commands Mac.Stream Frame.Model
-     Sec.MIC Sec.MICSpec Sec.MICProofs.
+     Frame.CanonProofs Sec.MIC Sec.MICSpec Sec.MICProofs Sec.EndToEnd Sec.EndToEndProofs Sec.WireMIC Sec.WireMICProofs.
+From LWGen Require Import RegistryGen.
 Import ListNotations.
 Open Scope N_scope.
 
@@ -129,6 +130,44 @@ Theorem C02_micf_iff : forall fk p b,
      (b = true <-> skipn 2 (mic p) = spec_cmacF_half fk (devaddr (hdr m)) (fcnt (hdr m)) msg)).
 Proof. exact micf_iff. Qed.
 Print Assumptions C02_micf_iff.
+
+(* ---- octets as received ("any change to an authenticated input is rejected") ----
+   The theorems above speak about the decoded frame value: the MIC functions hash its RE-ENCODING (mic_bytes).  For a
+   receiver that holds octets from the air the statement is about those octets: it holds for every octet string whose
+   MHDR RFU bits (bits 4..2 of the first octet) are zero, validated before DecodeFOptsToMACCommands - every octet of
+   msg is then authenticated.  The two exceptions are known findings with witnesses: C02-1 (the MHDR RFU bits are
+   dropped by the decoder) and C02-2 (after DecodeFOptsToMACCommands the RFU bits of MAC commands are dropped). *)
+Theorem C02_validate_received_octets : forall reg ver up conf txdr txch fk sk full bs b,
+  Forall (fun x => x < 256) bs -> rfu_zero bs = true ->
+  wire_validate_data false reg ver up conf txdr txch fk sk full bs = Ok b ->
+  exists p m,
+    phy_unmarshal bs = Ok p /\ pl p = PLMac m /\
+    (full mod 65536 = fcnt (hdr m) mod 65536 -> length (devaddr (hdr m)) = 4%nat -> (length bs - 4 < 256)%nat ->
+     b = bytes_eqb (skipn (length bs - 4) bs)
+                   (if up then spec_up_mic (spec_version ver) fk sk conf txdr txch (ack (fc (hdr m))) (devaddr (hdr m)) full
+                                            (firstn (length bs - 4) bs)
+                    else spec_down_mic (spec_version ver) sk conf (ack (fc (hdr m))) (devaddr (hdr m)) full
+                                       (firstn (length bs - 4) bs))).
+Proof. exact data_wire_validate. Qed.
+Print Assumptions C02_validate_received_octets.
+
+Theorem C02_received_octets_mhdr_rfu_refuted :
+  rfu_zero c05_2_bytes = false /\
+  wire_validate_data false builtin_registry LoRaWAN1_0 true 0 0 0 (fnwksint c05_2_keys) (snwksint c05_2_keys) 5 c05_2_bytes = Ok true /\
+  (let '(carried, specified, _) :=
+       match wire_spec_data LoRaWAN1_0 true 0 0 0 (fnwksint c05_2_keys) (snwksint c05_2_keys) 5 c05_2_bytes with
+       | Some x => x | None => ([], [], 0) end in
+   bytes_eqb carried specified) = false.
+Proof. exact data_wire_mhdr_rfu_refuted. Qed.
+Print Assumptions C02_received_octets_mhdr_rfu_refuted.
+
+Theorem C02_validate_after_decode_refuted :
+  nth 9 c02_2_sent 0 = 7 /\ rfu_zero c02_2_received = true /\
+  wire_validate_data false builtin_registry LoRaWAN1_0 true 0 0 0 c02_2_key c02_2_key 3 c02_2_sent = Ok true /\
+  wire_validate_data false builtin_registry LoRaWAN1_0 true 0 0 0 c02_2_key c02_2_key 3 c02_2_received = Ok false /\
+  wire_validate_data true builtin_registry LoRaWAN1_0 true 0 0 0 c02_2_key c02_2_key 3 c02_2_received = Ok true.
+Proof. exact data_wire_after_decode_refuted. Qed.
+Print Assumptions C02_validate_after_decode_refuted.
 
 (* the hypotheses are satisfiable, and the statements say something: a concrete 1.1 uplink
    (DevAddr 01020304, FCnt 0x12345, ACK, one MAC command in FOpts, 20 payload bytes) *)
